@@ -82,6 +82,9 @@ def main():
                           "tail": out[-300:] if rc not in (0, 1) else ""}
         log["checks"] = results
         detected = [c for c, r in results.items() if r["rc"] == 1]
+        broken = [c for c, r in results.items() if r["rc"] not in (0, 1)]
+        if broken:
+            print("HARNESS ERROR (exit code other than 0/1) in:", broken, {c: results[c]["tail"][-300:] for c in broken})
         notes = open(os.path.join(dst, "notes.md")).read()
         meta = {
             "id": sid, "property": prop, "source": "independent sub-agent (given only the property text and a scratch worktree)",
